@@ -39,6 +39,9 @@ func runChain(c *h.Ctx, cs chain.Case) {
 	for _, dv := range cs.Dev {
 		c.P.Class("dev:" + dv)
 	}
+	if dh := chain.DecideIdentityHook(b); dh.Allowed && !r.R[9] {
+		c.Fail("C04/chain/hook/allowed-with-invalid-token:"+devClass(cs), "ExecutionAllowedWithArgsHook returned nil although a token of the chain is expired / not yet active (deviations %v)\ncase: %+v", cs.Dev, cs)
+	}
 	if d.Allowed && !r.R[9] {
 		c.Fail("C04/chain/allowed-with-invalid-token:"+devClass(cs), "ExecutionAllowed returned nil although a token of the chain is expired / not yet active (deviations %v)\ncase: %+v", cs.Dev, cs)
 	}
@@ -85,7 +88,7 @@ func drawChain(t *rapid.T) chain.Case {
 		}
 		if rapid.Bool().Draw(t, "kind") {
 			v := -off
-			l.Exp = &v
+			l.Exp, l.ExpAbs = &v, nil
 			cs.Dev = append(cs.Dev, "expired@"+where)
 		} else {
 			v := off
